@@ -28,10 +28,11 @@ RULE = ("schedules = every interleaving (call granularity) of per-document progr
         "view of the same program run alone after a registry reset; data races are observed by the Go race detector while "
         "the same programs run free on one goroutine per document")
 
-CORE = ["AddFootnote", "AddEndnote", "RemoveFootnote", "AddListItem", "AddImage", "AddStyle", "ToBytes"]
+CORE = ["AddFootnote", "AddEndnote", "RemoveFootnote", "AddListItem", "AddImage", "AddStyle", "EditStyle", "ToBytes"]
 FULL = CORE + ["AddFootnoteToRun", "RemoveEndnote", "RestartNumbering", "AddParagraph", "AddTable", "AddHeader", "AddFooter", "GenerateTOC",
                "SetPageMargins", "SetFootnoteConfig", "RenderTextTemplate", "ConvertMd", "Save", "Open"]
 SUBOPS = ["AddFootnote", "AddEndnote", "AddListItem"]
+RELOPS = ["AddFootnote", "AddListItem", "AddImage", "EditStyle", "ToBytes"]
 
 
 def consts(ndocs, ops, maxlen, depth):
@@ -186,7 +187,7 @@ def execute(ctx, cases, tag, mode, **kw):
         obs = ctx.run_exec("isorace", with_mode(cases, "race", **kw), tag, binary=ctx.wzh_race,
                            shards=min(vlib.NCPU, max(1, len(cases) // 4)))
     else:
-        obs = ctx.run_exec("iso", with_mode(cases, mode), tag)
+        obs = ctx.run_exec("iso", with_mode(cases, mode, **kw), tag)
     log("  exec %s took %.1fs (incl. build)" % (tag, time.time() - t0))
     judge(ctx, obs, tag)
 
@@ -208,6 +209,10 @@ def run(ctx):
             seq = gen(ctx, "gen_seq.cfg", "SpecGen", "Emit", 2, CORE, 2, 4, "seq")
         ctx.exhaustive = True
         execute(ctx, seq, "seq", "seq")
+        # the same schedules on documents that were all rendered from ONE shared document template
+        # (quick: the calls that create relationships / parts; thorough: the whole core alphabet)
+        seqt = gen(ctx, "gen_seqtmpl.cfg", "SpecGen", "Emit", 2, RELOPS if q else CORE, 3 if q else 2, 3 if q else 4, "seqtmpl")
+        execute(ctx, seqt, "seqtmpl", "seq", origin="tmpl")
         if not q:
             full2 = gen(ctx, "gen_full2.cfg", "SpecGen", "Emit", 2, FULL, 1, 2, "full2")
             execute(ctx, full2, "full2", "seq")
